@@ -7,9 +7,11 @@ import (
 	"flag"
 	"fmt"
 	"os"
+	"runtime"
 	"runtime/debug"
 	"sort"
 	"strings"
+	"sync/atomic"
 	"time"
 
 	zz "github.com/grafana/cog/internal/zzverif"
@@ -154,8 +156,31 @@ func main() {
 		}
 	}
 
+	// wall-clock watchdog: a backstop for loops in code without ticks
+	var caseIdx atomic.Int64
+	limit := 60.0
+	if v := opts["watchdog"]; v != "" {
+		fmt.Sscanf(v, "%g", &limit)
+	}
+	go func() {
+		for {
+			time.Sleep(500 * time.Millisecond)
+			st := zz.ExecStart.Load()
+			if st == 0 {
+				continue
+			}
+			if time.Since(time.Unix(0, st)).Seconds() > limit {
+				buf := make([]byte, 1<<20)
+				n := runtime.Stack(buf, true)
+				fmt.Fprintf(os.Stderr, "WATCHDOG case=%d one execution exceeded %.0fs wall clock; executing: %v\n%s\n", caseIdx.Load(), limit, zz.CurrentDesc.Load(), buf[:n])
+				os.Exit(4)
+			}
+		}
+	}()
+
 	runOne := func(idx int) {
 		progress(idx)
+		caseIdx.Store(int64(idx))
 		cr := p.RunCase(ctx, zz.CaseSeed(*seed, *prop, idx), idx)
 		ctx.Stats.Cases++
 		for _, f := range cr.Nontrivial {
